@@ -5,8 +5,9 @@ the engine makes to a kernel together with the PRNG key it was handed) this file
 
 * ``WalkKernel`` - a LoggingKernel whose transition is a key-driven integer random walk.  Every
   position is an int32 vector of 5 slots  [value, key word 0, key word 1, nth_epoch, time_in_epoch+1]:
-      value_i := (3*value_i + value_((i+1) mod nk) + d_trans(key) + h_i) mod 9973,   d_trans(key) = key[0] mod 5,
-  where h_i = 0 until end_warmup and then (sum of the tuning infos handed to end_warmup) mod 9973; tune() returns
+      value_i := (3*value_i + value_((i+1) mod nk) + d_trans(key) + h_i + g_i) mod 9973,   d_trans(key) = key[0] mod 5,
+  where g_i = the kernel's own position value in the model state init_state() was handed (this chain's jittered
+  initial value), h_i = 0 until end_warmup and then (sum of the tuning infos handed to end_warmup) mod 9973; tune() returns
   the kernel's current value as tuning info (so a chain that is handed other chains' tuning history moves differently)
   so the stored trajectory depends on the initial value, on every key and on the order of the kernels,
   and the stored sample itself tells which key / epoch / iteration produced it;
@@ -63,6 +64,7 @@ def lib():
         n: object      # as enginekit.LogState
         buf: object
         h: object      # what end_warmup folded out of the tuning history (0 before)
+        g: object      # what init_state read from the model state: the kernel's own (jittered) initial value
 
     @register_dataclass_as_pytree
     @dataclass
@@ -78,10 +80,12 @@ def lib():
 
         def _log(self, ks, row):
             base = super()._log(ks, row)
-            return WalkState(n=base.n, buf=base.buf, h=ks.h)
+            return WalkState(n=base.n, buf=base.buf, h=ks.h, g=ks.g)
 
         def init_state(self, prng_key, model_state):
-            ks = WalkState(n=i32(0), buf=jnp.full((ek.CAP, ek.W), -7, dtype=jnp.int32), h=i32(0))
+            # the kernel state depends on the VALUES of this chain's (jittered) initial model state
+            ks = WalkState(n=i32(0), buf=jnp.full((ek.CAP, ek.W), -7, dtype=jnp.int32), h=i32(0),
+                           g=i32(model_state[f"p{self.idx}"][0]))
             return self._log(ks, self._row(ek.M_INIT, prng_key, model_state))
 
         def _tune(self, meth, prng_key, kernel_state, model_state, epoch, history):
@@ -97,7 +101,7 @@ def lib():
                 nt = int(jnp.shape(tuning_history.time)[0])
                 h = i32(jnp.sum(tuning_history.val) % MOD)
             ks = self._log(kernel_state, self._row(ek.M_ENDWARMUP, prng_key, model_state, ntune=nt))
-            return WarmupOutcome(error_code=i32(0), kernel_state=WalkState(n=ks.n, buf=ks.buf, h=h))
+            return WarmupOutcome(error_code=i32(0), kernel_state=WalkState(n=ks.n, buf=ks.buf, h=h, g=ks.g))
 
         def _trans(self, meth, prng_key, kernel_state, model_state, epoch):
             ks = self._log(kernel_state, self._row(meth, prng_key, model_state, epoch))
@@ -105,7 +109,7 @@ def lib():
             d = (w[0] % jnp.uint32(5)).astype(jnp.int32)
             me = model_state[f"p{self.idx}"]
             nb = model_state[f"p{(self.idx + 1) % self.nk}"]
-            val = (3 * me[0] + nb[0] + d + ks.h) % MOD
+            val = (3 * me[0] + nb[0] + d + ks.h + ks.g) % MOD
             new = jnp.stack([i32(val), as_i32(w[0]), as_i32(w[1]), i32(epoch.nth_epoch),
                              i32(epoch.time_in_epoch) + 1])
             pos = {f"p{self.idx}": new, "clock": i32(model_state["clock"]) + 1}
